@@ -33,6 +33,27 @@ def split_indent(l):
     return l[:len(l) - len(body)], body.rstrip()
 
 
+def container_type_at(lines, i):
+    """Type name of the section that line i really sits in ('' = top level), read off the text itself:
+    generated lines remember the container they were made for, but damaged texts move lines around."""
+    stack = []
+    for l in lines[:i]:
+        s = str(l).strip()
+        k = c06.kind(s)
+        if k == "open":
+            stack.append(s[1:].rstrip(">").split()[0].lower() if s[1:].rstrip(">").split() else "")
+        elif k == "close" and stack:
+            stack.pop()
+    return stack[-1] if stack else ""
+
+
+def real_container(rec, lines, i):
+    t = container_type_at(lines, i)
+    if t == "":
+        return rec["top"]
+    return rec["types"].get(t)
+
+
 def rewrite(rng, rec, lines):
     """Apply one random rewrite; returns (new lines, name) or None."""
     lines = list(lines)
@@ -69,8 +90,8 @@ def rewrite(rng, rec, lines):
     elif kind == "case-key":
         if role != "key" or l.info.get("child") is None:
             return None
-        T = rec["top"] if l.info["cont"] == "" else rec["types"][l.info["cont"]]
-        if T["keytype"] == "identifier":
+        T = real_container(rec, lines, i)
+        if T is None or T.get("abstract") or T["keytype"] not in ("basic-key", "ipaddr-or-hostname"):
             return None
         parts = body.split(None, 1)
         lines[i] = Line(ind + randcase(rng, parts[0]) + (" " + parts[1] if len(parts) > 1 else ""), **l.info)
@@ -97,7 +118,9 @@ def rewrite(rng, rec, lines):
         # normalised key, or a whole section block); definitions and uses stay where they are
         if role != "key" or "$" in body or i + 1 >= len(lines):
             return None
-        T = rec["top"] if l.info["cont"] == "" else rec["types"][l.info["cont"]]
+        T = real_container(rec, lines, i)
+        if T is None or T.get("abstract"):
+            return None
         n = lines[i + 1]
         if n.info["role"] == "key" and n.info["cont"] == l.info["cont"] and "$" not in n:
             try:
